@@ -3,6 +3,7 @@ package console
 import (
 	"context"
 	"fmt"
+	"grog/internal/verifhook"
 	"os"
 	"sort"
 	"sync"
@@ -143,6 +144,7 @@ func (m *model) Update(msg tea.Msg) (tea.Model, tea.Cmd) {
 		// React to ctrl+c
 		case "ctrl+c":
 			m.cancel()
+			verifhook.Event("signal.cancelled", "ctrl+c")
 			green := color.New(color.FgGreen).SprintFunc()
 			printMessage := fmt.Sprintf("%s: Received interrupt signal, exiting...", green("INFO"))
 			return m, tea.Sequence(tea.Println(printMessage), tea.Quit)
